@@ -159,3 +159,16 @@ Fixpoint split_blanks (cur : str) (s : str) : list str :=
 Definition patsubst_dir_text (text : str) : str := join_sp (map patsubst_dir (split_blanks [] text)).
 
 Definition blank_free (s : str) : bool := negb (existsb is_mk_blank s).
+
+(* ------------------------------------------------------------------ directory_deps of a whole step *)
+(* backends/make/writer.py directory_deps(targets): the parent directories of the outputs of ONE step, de-duplicated in
+   order of first occurrence (iterutils.uniques), without the build directory itself (the empty suffix), each as its
+   sentinel.  Argument: the parent directory of every output, in output order. *)
+Definition str_mem (x : str) (l : list str) : bool := existsb (str_eqb x) l.
+Fixpoint uniq_strs (seen l : list str) : list str :=
+  match l with
+  | [] => []
+  | x :: r => if str_mem x seen then uniq_strs seen r else x :: uniq_strs (x :: seen) r
+  end.
+Definition nonroot (d : str) : bool := match d with [] => false | _ => true end.
+Definition directory_deps (dirs : list str) : list str := map sentinel_of (filter nonroot (uniq_strs [] dirs)).
